@@ -57,18 +57,18 @@ Section Reader.
             let pos1 := pos + 1 in
             if header_sz =? 0 then
               match r_true_up bits pos1 rest1 with
-              | None => HErr ETrueUp
+              | None => HErr ETrueUp pos1 rest1
               | Some (pos2, rest2) => next_header bits f pos2 rest2
               end
-            else if HEADER_MAX_SIZE <? header_sz then HErr EHeaderTooBig
+            else if HEADER_MAX_SIZE <? header_sz then HErr EHeaderTooBig pos1 rest1
             else
               match take_exact rest1 header_sz with
-              | None => HErr ESystem
+              | None => HErr ESystem (pos1 + len rest1) []
               | Some (hb, rest2) =>
                   match parse_header hb with
-                  | None => HErr EUnpackHeader
+                  | None => HErr EUnpackHeader (pos1 + header_sz) rest2
                   | Some h =>
-                      if TABLE_FULL_SIZE <? h_size h then HErr ESizeExceedsMax
+                      if TABLE_FULL_SIZE <? h_size h then HErr ESizeExceedsMax (pos1 + header_sz) rest2
                       else HSome h (pos1 + header_sz) rest2
                   end
               end
@@ -184,7 +184,7 @@ Section Reader.
   Lemma next_frame_cut : forall f p disc b F s buf,
     disc < 128 -> len b <= TABLE_FULL_SIZE ->
     F ++ s = frame crc disc b -> s <> [] -> F <> [] ->
-    next_frame bits crc (S f) p F buf = FrErr ESystem.
+    next_frame bits crc (S f) p F buf = FrErr ESystem (p + len F) [].
   Proof.
     intros f p disc b F s buf Hd Hb HF Hs Hne. unfold next_frame.
     assert (Hb64 : len b < W64) by (pose proof tfs_lt; lia).
@@ -202,16 +202,16 @@ Section Reader.
     - (* F1 = header bytes ++ l, and l ++ s = b *)
       subst F1. rewrite take_exact_app. rewrite HP.
       cbn [h_size hdr]. destruct (N.ltb_spec TABLE_FULL_SIZE (len b)) as [E4|E4]; [lia|].
-      rewrite take_exact_short; [reflexivity|].
+      rewrite take_exact_short; [f_equal; rewrite len_cons, len_app; lia|].
       cbn [h_size hdr]. rewrite E3, len_app. destruct s; [contradiction|]. rewrite len_cons. lia.
     - (* F1 is a prefix of the header bytes *)
       destruct l as [|y l].
       + rewrite app_nil_r in E1. subst F1.
         rewrite take_exact_all. rewrite HP.
         cbn [h_size hdr]. destruct (N.ltb_spec TABLE_FULL_SIZE (len b)) as [E4|E4]; [lia|].
-        cbn [app] in E3. subst s. rewrite take_exact_short; [reflexivity|].
+        cbn [app] in E3. subst s. rewrite take_exact_short; [f_equal; rewrite len_cons, len_nil; lia|].
         cbn [h_size hdr]. rewrite len_nil. destruct b; [contradiction|]. rewrite len_cons. lia.
-      + rewrite take_exact_short; [reflexivity|]. rewrite E1, len_app, len_cons. lia.
+      + rewrite take_exact_short; [f_equal; rewrite len_cons; lia|]. rewrite E1, len_app, len_cons. lia.
   Qed.
 
   Lemma next_frame_nil : forall f p buf, next_frame bits crc (S f) p [] buf = FrNone.
@@ -278,7 +278,8 @@ Section Reader.
   Lemma next_main_cut : forall hf p buf c F s,
     main_at bits crc p buf c -> len buf <= TABLE_FULL_SIZE ->
     F ++ s = c -> s <> [] -> F <> [] -> (0 < hf)%nat ->
-    exists e, next bits crc hf {| r_pos := p; r_rest := F; r_pend := [] |} = NErr e.
+    exists e st', next bits crc hf {| r_pos := p; r_rest := F; r_pend := [] |} = NErr e st' /\
+                  r_rest st' = [] /\ r_pend st' = [] /\ (e = ESystem \/ e = ENoSecondHeader).
   Proof.
     intros hf p buf c F s Hm Hlen HF Hs Hne Hhf.
     destruct hf as [|hf]; [inversion Hhf|].
@@ -286,7 +287,7 @@ Section Reader.
     destruct disc_eqs as (E1 & E2 & E3 & E4).
     unfold next. cbn [r_pend r_pos r_rest].
     destruct Hm as [Hfit | first second k Hsplit Hf Hsec Hk Hpos].
-    - rewrite (next_frame_cut hf p HEADER_WHOLE buf F s []) by assumption. eexists; reflexivity.
+    - rewrite (next_frame_cut hf p HEADER_WHOLE buf F s []) by assumption. eexists; eexists; split; [reflexivity|split; [reflexivity|split; [reflexivity|(left; reflexivity) || (right; reflexivity)]]].
     - assert (Hl1 : len first <= TABLE_FULL_SIZE) by (rewrite Hsplit, len_app in Hlen; lia).
       assert (Hl2 : len second <= TABLE_FULL_SIZE) by (rewrite Hsplit, len_app in Hlen; lia).
       apply app_eq_app in HF. destruct HF as [l [[EF Es]|[EF Es]]].
@@ -300,13 +301,13 @@ Section Reader.
         * (* l = zeros k ++ l2: l2 is a proper prefix of the second frame *)
           subst l. rewrite drop_zeros.
           destruct l2 as [|y l2].
-          -- rewrite next_frame_nil. eexists; reflexivity.
+          -- rewrite next_frame_nil. eexists; eexists; split; [reflexivity|split; [reflexivity|split; [reflexivity|(left; reflexivity) || (right; reflexivity)]]].
           -- rewrite (next_frame_cut hf _ HEADER_SECOND second (y :: l2) s first); try assumption; try discriminate.
-             ++ eexists; reflexivity.
+             ++ eexists; eexists; split; [reflexivity|split; [reflexivity|split; [reflexivity|(left; reflexivity) || (right; reflexivity)]]].
              ++ now symmetry.
         * (* l is a prefix of the padding *)
           symmetry in El. apply zeros_prefix in El. destruct El as [_ El].
-          rewrite drop_all by exact El. rewrite next_frame_nil. eexists; reflexivity.
+          rewrite drop_all by exact El. rewrite next_frame_nil. eexists; eexists; split; [reflexivity|split; [reflexivity|split; [reflexivity|(left; reflexivity) || (right; reflexivity)]]].
       + (* cut inside the first frame *)
         destruct l as [|y l].
         * rewrite app_nil_r in EF. subst F. rewrite <- (app_nil_r (frame crc HEADER_FIRST first)).
@@ -314,9 +315,9 @@ Section Reader.
           assert (Hmod : (p + len (frame crc HEADER_FIRST first) + k) mod B = 0).
           { rewrite Hpos. apply nb_mod. }
           rewrite (r_true_up_pad _ k) by assumption.
-          rewrite drop_nil. rewrite next_frame_nil. eexists; reflexivity.
+          rewrite drop_nil. rewrite next_frame_nil. eexists; eexists; split; [reflexivity|split; [reflexivity|split; [reflexivity|(left; reflexivity) || (right; reflexivity)]]].
         * rewrite (next_frame_cut hf p HEADER_FIRST first F (y :: l) []); try assumption; try discriminate.
-          -- eexists; reflexivity.
+          -- eexists; eexists; split; [reflexivity|split; [reflexivity|split; [reflexivity|(left; reflexivity) || (right; reflexivity)]]].
           -- now symmetry.
   Qed.
 
@@ -358,14 +359,14 @@ Section Reader.
   (* ---------------------------------------------------------------- the consumer's loop *)
   Inductive Reads (hf : nat) : rstate -> list entry -> rend -> Prop :=
   | ReadsEnd : forall st, next bits crc hf st = NEnd -> Reads hf st [] REnd
-  | ReadsErr : forall st e, next bits crc hf st = NErr e -> Reads hf st [] (RErr e)
+  | ReadsErr : forall st e st', next bits crc hf st = NErr e st' -> Reads hf st [] (RErr e)
   | ReadsEntry : forall st e st1 es r,
       next bits crc hf st = NEntry e st1 -> Reads hf st1 es r -> Reads hf st (e :: es) r.
 
   Lemma reads_read_all : forall hf st es r, Reads hf st es r ->
     forall fuel, (length es < fuel)%nat -> read_all bits crc hf fuel st = (es, r).
   Proof.
-    induction 1 as [st H|st e H|st e st1 es r H HR IH]; intros fuel Hf.
+    induction 1 as [st H|st e st' H|st e st1 es r H HR IH]; intros fuel Hf.
     - destruct fuel; [inversion Hf|]. cbn [read_all]. now rewrite H.
     - destruct fuel; [inversion Hf|]. cbn [read_all]. now rewrite H.
     - destruct fuel; [inversion Hf|]. cbn [read_all]. rewrite H.
@@ -449,7 +450,7 @@ Section Reader.
   Proof.
     intros hf st st' es r E H. inversion H; subst.
     - apply ReadsEnd. congruence.
-    - apply ReadsErr. congruence.
+    - eapply ReadsErr. etransitivity; [exact E|eassumption].
     - eapply ReadsEntry; [|eassumption]. congruence.
   Qed.
 
@@ -475,7 +476,7 @@ Section Reader.
 
   (* THE main lemma: the bytes a sequence of appends adds to the file, read from where they
      start, and every prefix F of them *)
-  Lemma read_written : forall rollover ess st rs st',
+  Lemma read_written_gen : forall rollover ess st rs st',
     wf_w st -> Forall (Forall wf_entry) ess ->
     append_all bits crc rollover st (map ebytes ess) = (rs, st') ->
     exists S, w_file st' = w_file st ++ S /\
@@ -483,7 +484,7 @@ Section Reader.
         exists r,
           Reads hf {| r_pos := w_bw st; r_rest := F; r_pend := [] |}
                 (concat (durable (w_bw st + len F) rs ess)) r /\
-          (r = REnd \/ exists e, r = RErr e) /\ (s = [] -> r = REnd) /\
+          (r = REnd \/ exists e, r = RErr e /\ (e = ESystem \/ e = ENoSecondHeader)) /\ (s = [] -> r = REnd) /\
           (length (concat (durable (w_bw st + len F) rs ess)) <= length F)%nat.
   Proof.
     intros rollover ess. induction ess as [|es ess IH]; intros st rs st' Hwf Hes H.
@@ -521,7 +522,7 @@ Section Reader.
         exists r,
           Reads hf {| r_pos := p; r_rest := zeros k ++ c1 ++ l2; r_pend := [] |}
                 (concat (durable (p + len (zeros k ++ c1 ++ l2)) ((r1, w_bw st1) :: rs') (es :: ess))) r /\
-          (r = REnd \/ exists e, r = RErr e) /\ (s = [] -> r = REnd) /\
+          (r = REnd \/ exists e, r = RErr e /\ (e = ESystem \/ e = ENoSecondHeader)) /\ (s = [] -> r = REnd) /\
           (length (concat (durable (p + len (zeros k ++ c1 ++ l2)) ((r1, w_bw st1) :: rs') (es :: ess)))
            <= length (zeros k ++ c1 ++ l2))%nat).
       { intros l2 s hf Hl2 Hhf.
@@ -564,7 +565,7 @@ Section Reader.
           rewrite Hdur. cbn [concat length].
           assert (Hs : s <> []) by (rewrite Es; discriminate).
           assert (Goal' : exists r, Reads hf {| r_pos := p; r_rest := F; r_pend := [] |} [] r /\
-                                    (r = REnd \/ exists e, r = RErr e)).
+                                    (r = REnd \/ exists e, r = RErr e /\ (e = ESystem \/ e = ENoSecondHeader))).
           { symmetry in EF. apply app_eq_app in EF. destruct EF as [l' [[EF' El]|[EF' El]]].
             - (* F = zeros k ++ l', c1 = l' ++ y :: l *)
               subst F. rewrite app_length in Hhf.
@@ -573,17 +574,36 @@ Section Reader.
                 eapply reads_next_eq; [apply next_skip_pad; [exact Hpad|rewrite app_length; lia]|].
                 apply ReadsEnd. apply next_empty. lia.
               + destruct Hcase as [[_ ->]|(-> & Hesne & Hlen1 & Hmain & Hc1ne)]; [discriminate|].
-                destruct (next_main_cut hf (p + k) (ebytes es) c1 (z :: l') (y :: l)) as [e He];
+                destruct (next_main_cut hf (p + k) (ebytes es) c1 (z :: l') (y :: l)) as (e & ste & He & _ & _ & Hkind);
                   try assumption; try discriminate; [now symmetry|lia|].
-                exists (RErr e). split; [|right; now exists e].
+                exists (RErr e). split; [|right; exists e; split; [reflexivity|exact Hkind]].
                 eapply reads_next_eq; [apply next_skip_pad; [exact Hpad|rewrite app_length; lia]|].
-                apply ReadsErr. exact He.
+                eapply ReadsErr. exact He.
             - (* F is a prefix of the padding *)
               symmetry in EF'. apply zeros_prefix in EF'. destruct EF' as [HFz HFl].
               exists REnd. split; [|now left]. apply ReadsEnd.
               apply (next_pad_only hf p k F); assumption. }
           destruct Goal' as (r & HRd & Hre). exists r.
           split; [exact HRd|]. split; [exact Hre|]. split; [intros ->; contradiction|lia].
+  Qed.
+
+  Lemma read_written : forall rollover ess st rs st',
+    wf_w st -> Forall (Forall wf_entry) ess ->
+    append_all bits crc rollover st (map ebytes ess) = (rs, st') ->
+    exists S, w_file st' = w_file st ++ S /\
+      forall F s hf, F ++ s = S -> (length F < hf)%nat ->
+        exists r,
+          Reads hf {| r_pos := w_bw st; r_rest := F; r_pend := [] |}
+                (concat (durable (w_bw st + len F) rs ess)) r /\
+          (r = REnd \/ exists e, r = RErr e) /\ (s = [] -> r = REnd) /\
+          (length (concat (durable (w_bw st + len F) rs ess)) <= length F)%nat.
+  Proof.
+    intros rollover ess st rs st' Hwf Hes H.
+    destruct (read_written_gen rollover ess st rs st' Hwf Hes H) as (S & HS & HR).
+    exists S. split; [exact HS|]. intros F s hf HF Hhf.
+    destruct (HR F s hf HF Hhf) as (r & H1 & H2 & H3 & H4). exists r.
+    split; [exact H1|]. split; [|split; assumption].
+    destruct H2 as [->|(e & -> & _)]; [now left|right; now exists e].
   Qed.
 
   (* ---------------------------------------------------------------- from the loop relation to read_log *)
